@@ -39,6 +39,8 @@ func scenarios(tier string) []sched.Scenario {
 		{Name: "leader-crash-restart", Fault: "leader-crash-restart", Clients: 2, PerCli: 1, SyncData: true},
 		{Name: "coord-crash", Fault: "coord-crash", Clients: 2, PerCli: 1, SyncData: true},
 	}
+	// the longest scenario goes last: it inherits the budget the others did not use
+	specs = append(specs, oxc.ScenarioSpec{Name: "swap-snapshot-lead", Fault: "swap-snapshot-lead", Clients: 0, PerCli: 0, SyncData: true, RealDisk: true})
 	dev := 1
 	if tier == "thorough" {
 		dev = 2
